@@ -57,6 +57,8 @@ LEMMAS = {
     "L8-num_bits": "num_bits(v, log_trick) = n with cap(n) >= v for v >= 0",
     "L9-relabel": "if x = a o m on dom(m) and every label of k is mapped then mono_a(relab(k, m)) == mono_x(k) (boolean and spin); relab keeps the length and maps positions pointwise",
     "L10-split": "product over a key = product over its members in S times product over its members outside S; a subsequence of a canonical key is canonical; if the assignment takes the values d.get(i,0) on the labels concerned, prod of those values is the monomial",
+    "L11-enum": "a dict with exactly n items, n of whose items are pairwise distinct keys k_1..k_n, is the dict {k_1: d[k_1], .., k_n: d[k_n]} (a finite set of cardinality n that contains n distinct elements has no others)",
+    "L12-count": "if every stored coefficient of d equals c then the boolean value of d is c times the number of its monomials that evaluate to 1, a natural number <= the number of terms",
     "set-facts": "memset of empty/unit/concat; members(sorted(set k)) = members(k); members(ssq k) subset members(k); |S + {i}| = |S| + [i not in S]",
     "sq-shape": "sq(k) is duplicate-free, sorted, idempotent, no longer than k, members(sq k) subset members(k), identity on length <= 1",
 }
